@@ -254,6 +254,21 @@ def run(model: Model, rep: Report) -> None:
     # ----------------------------------------------------------------- R7
     _keyword_values(model, rep)
 
+    # ----------------------------------------------------------------- R9
+    r9 = rep.rule("C01-R9", "TABLE", "an unescaped end-of-line inside a literal string (CR, LF or CR LF) reads as a single LF (7.3.4.2)", 1)
+    ps = model.func(BASE + "._parse_string")
+    try:
+        end_re = fo.fold(mod, mod.assigns["END_STRING"])
+        special = end_re.byteset() if isinstance(end_re, Regex) else frozenset()
+    except (KeyError, Unfoldable):
+        special = frozenset()
+    psrc = "".join(unparse(ps.node).split())
+    handles_cr = 0x0D in special or "replace(b'\\r" in psrc or "b'\\r'" in psrc
+    if handles_cr:
+        r9.ok(site(ps), ps.qualname, "CR is a special byte of the string scanner (normalised to LF)")
+    else:
+        r9.violation(site(ps), ps.qualname, "END_STRING does not stop at CR: raw CR / CR LF inside ( ) are copied as they are", "ISO 32000-1 7.3.4.2: an end-of-line marker within a literal string without a preceding backslash is the byte 0x0A whichever form it takes; `(a<CR>b)` reads back as a CR b and `(a<CR><LF>b)` as a CR LF b")
+
     # ----------------------------------------------------------------- R8
     r8 = rep.rule("C01-R8", "DEPEND", "name interning: the table is keyed by the name itself, so distinct names (str vs bytes, different bytes) never share an entry", 2)
     it = model.func("pdfminer.psparser.PSSymbolTable.intern")
